@@ -430,6 +430,20 @@ def battery(s, b):
         'copy': lambda: B(copy.copy(s)), 'copy()': lambda: B(s.copy()), 'uintle': lambda: call_name(lambda: s.uintle), 'float': lambda: call_name(lambda: repr(s.float)),
         'tobitarray-use': lambda: tobitarray_use(s), 'tofile': lambda: tofile_bytes(s), 'readlist': lambda: call_name(lambda: ConstBitStream(s).readlist('bool, bits')[0]) if L else None,
     }
+    if isinstance(s, ConstBitStream):
+        # a stream that is part way through its data, used as an operand: what comes back, and where everybody's position is afterwards
+        def with_pos(f):
+            def g():
+                s.pos = L // 2
+                r = f()
+                out = (B(r) if isinstance(r, Bits) else r, getattr(r, 'pos', None), s.pos, r is s and L // 2 != 0)
+                s.pos = 0
+                return out
+            return g
+        obs.update({'pos:add-empty-str': with_pos(lambda: s + ''), 'pos:add-empty-bits': with_pos(lambda: s + Bits()), 'pos:radd-empty': with_pos(lambda: '' + s),
+                    'pos:mul1': with_pos(lambda: s * 1), 'pos:slice-all': with_pos(lambda: s[:]), 'pos:copy()': with_pos(lambda: s.copy()),
+                    'pos:and-self': with_pos(lambda: (s & s) if L else None), 'pos:find': with_pos(lambda: s.find('0b1')), 'pos:read': with_pos(lambda: s.read(min(3, L - L // 2))),
+                    'pos:to-Bits': with_pos(lambda: Bits(s)), 'pos:join': with_pos(lambda: s.join([s, s]))})
     return {k: call_name(f) for k, f in obs.items()}
 
 
